@@ -236,3 +236,21 @@ def p2pkh_from_pubkey(cls: Const(P2PKHBitcoinAddress), pubkey: Bytes, accept_inv
     option(chains=True)
     ensures(typeis(result, P2PKHBitcoinAddress) and result == hash160(pubkey)
             and result.nVersion == chain_pubkey_ver(CHAIN))
+
+
+# ---- bare-pubkey scripts accepted by the P2PKH converter ---------------------------------------------------------
+@contract('bitcoin.wallet:CBitcoinAddress.from_scriptPubKey', name='from_spk_bare_compressed_pubkey', prop=P)
+def from_spk_bare_compressed_pubkey(cls: Const(CBitcoinAddress), scriptPubKey: Bytes(cls=CScript), *, pk: Bytes(len=33)):
+    """<33-byte key> CHECKSIG converts to the P2PKH address of HASH160(key) under the selected chain"""
+    option(chains=True, byte_level=True)
+    requires(scriptPubKey == b'\x21' + pk + b'\xac')
+    ensures(typeis(result, P2PKHBitcoinAddress) and result == hash160(pk) and result.nVersion == chain_pubkey_ver(CHAIN))
+
+
+@contract('bitcoin.wallet:CBitcoinAddress.from_scriptPubKey', name='from_spk_bare_uncompressed_pubkey', prop=P)
+def from_spk_bare_uncompressed_pubkey(cls: Const(CBitcoinAddress), scriptPubKey: Bytes(cls=CScript), *, pk: Bytes(len=65, explicit=False)):
+    """<65-byte key> CHECKSIG converts to the P2PKH address of HASH160(key): the property as stated; the library
+    hashes only the first 64 key bytes (recorded known finding; used only to replay it, never run as a check)"""
+    option(witness_only=True)
+    requires(scriptPubKey == b'\x41' + pk + b'\xac')
+    ensures(typeis(result, P2PKHBitcoinAddress) and result == hash160(pk))
